@@ -1,0 +1,61 @@
+//go:build verif
+
+// Contracts for the verification machinery in /verif (comment-only; never compiled into a binary).
+// Property C12 (set algebra half): the CPU-set operations the cgroup updaters rely on are the set-theoretic ones.
+// A CPUSet wraps a map[int]struct{}; membership is has(s.elems, c).
+
+package cpuset
+
+//@ spec func inSlice(xs []int, c int) bool = exists i int :: 0 <= i && i < len(xs) && xs[i] == c
+
+// Frame over-approximation: the set builders call b.Add(cpu) in a loop, which allocates a fresh one-element variadic
+// []int per iteration. The engine cannot prove the element heap of the pre-existing int slices unchanged across such a
+// loop (the frame goal needs row extensionality), so these functions are allowed to change elements of int slices;
+// they change nothing else (no map, no field).
+//@ spec func scratchInts() []int
+
+//@ func (*CPUSetBuilder).Add [C12]
+//@   requires b != nil && b.result.elems != nil && len(b.result.elems) >= 0
+//@   ensures #done: old(b.done) ==> (forall c int :: has(b.result.elems, c) == old(has(b.result.elems, c)))
+//@   ensures #add: !old(b.done) ==> (forall c int :: has(b.result.elems, c) <==> (old(has(b.result.elems, c)) || inSlice(elems, c)))
+//@   modifies contents(b.result.elems)
+//@   loop 1 invariant 0 <= $i && $i <= len(elems)
+//@   loop 1 invariant forall c int :: has(b.result.elems, c) <==> (old(has(b.result.elems, c)) || (exists i int :: 0 <= i && i < $i && elems[i] == c))
+
+//@ func (CPUSet).Contains [C12]
+//@   ensures #iff: result <==> has(s.elems, cpu)
+//@   modifies nothing
+
+//@ func (CPUSet).Size [C12]
+//@   ensures #len: result == len(s.elems)
+//@   modifies nothing
+
+//@ func (CPUSet).IsSubsetOf [C12]
+//@   ensures #iff: result <==> (forall c int :: has(s.elems, c) ==> has(s2.elems, c))
+//@   modifies nothing
+//@   loop 1 invariant result
+//@   loop 1 invariant forall c int :: $seen[c] ==> has(s2.elems, c)
+
+//@ func (CPUSet).Union [C12]
+//@   ensures #set: forall c int :: has(result.elems, c) <==> (has(s.elems, c) || has(s2.elems, c))
+//@   ensures #fresh: result.elems != nil && fresh(result.elems)
+//@   modifies allelems(scratchInts())
+//@   loop 1 invariant b != nil && fresh(b) && !b.done && b.result.elems != nil && fresh(b.result.elems)
+//@   loop 1 invariant forall c int :: has(b.result.elems, c) <==> ($seen[c] && has(s.elems, c))
+//@   loop 2 invariant b != nil && fresh(b) && !b.done && b.result.elems != nil && fresh(b.result.elems)
+//@   loop 2 invariant forall c int :: has(b.result.elems, c) <==> (has(s.elems, c) || ($seen[c] && has(s2.elems, c)))
+
+//@ func (CPUSet).Clone [C12]
+//@   ensures #set: forall c int :: has(result.elems, c) <==> has(s.elems, c)
+//@   ensures #fresh: result.elems != nil && fresh(result.elems)
+//@   modifies allelems(scratchInts())
+//@   loop 1 invariant b != nil && fresh(b) && !b.done && b.result.elems != nil && fresh(b.result.elems)
+//@   loop 1 invariant forall c int :: has(b.result.elems, c) <==> ($seen[c] && has(s.elems, c))
+
+// Equals is implemented as "same size and s is a subset of s2". The engine's map model has no cardinality theory
+// (pigeonhole: equal size + inclusion ==> equality), so the contract states exactly that characterisation; it implies
+// the inclusion s <= s2, which is all that MergeConditionIfCPUSetIsLooser relies on.
+//@ func (CPUSet).Equals [C12]
+//@   ensures #iff: result <==> (len(s.elems) == len(s2.elems) && (forall c int :: has(s.elems, c) ==> has(s2.elems, c)))
+//@   modifies nothing
+//@   loop 1 invariant forall c int :: $seen[c] ==> has(s2.elems, c)
